@@ -992,7 +992,9 @@ func (ro *RedisOutput) sendCmdsBatch(replayWait usync.WaitCloser, conn client.Re
 			}
 		}
 
-		if shouldUpdateCP {
+		// lastOffset is undefined (-1) until the first stream item has been consumed:
+		// a ticker or shutdown flush before that must not overwrite the stored position
+		if shouldUpdateCP && lastOffset >= 0 {
 			if ro.cfg.EnableResumeFromBreakPoint {
 				if len(cmdQueue) > 0 {
 					lastCmd := cmdQueue[len(cmdQueue)-1]
